@@ -17,15 +17,17 @@ import (
 	"os"
 	"path/filepath"
 	"strings"
+	"time"
 
 	"github.com/opencontainers/image-spec/specs-go"
 	ocispec "github.com/opencontainers/image-spec/specs-go/v1"
 	"oras.land/oras-go/v2/content/file"
 	"oras.land/oras-go/v2/content/memory"
+	"oras.land/oras-go/v2/content/oci"
 	"oras.land/oras-go/v2/errdef"
 )
 
-func init() { domains["C06s"] = runC06s }
+func init() { domains["C06s"] = runC06s; domains["C06c"] = runC06c }
 
 type sNode struct {
 	id    int
@@ -354,6 +356,118 @@ func runC06s(seed int64, tier string, sc *Script) map[string]any {
 			fstore.Close()
 		}
 		os.RemoveAll(dir)
+	}
+	sc.Extra["evaluations"] = ops
+	return nil
+}
+
+// gateReader hands out its bytes only after `release` is closed, and reports on `started`
+// when the store first asks for them.
+type gateReader struct {
+	data    []byte
+	at      int
+	started chan struct{}
+	release chan struct{}
+	once    bool
+}
+
+func (g *gateReader) Read(p []byte) (int, error) {
+	if !g.once {
+		g.once = true
+		close(g.started)
+		<-g.release
+	}
+	if g.at >= len(g.data) {
+		return 0, io.EOF
+	}
+	n := copy(p, g.data[g.at:])
+	g.at += n
+	return n, nil
+}
+
+// overlapPush: one Push of `d` is suspended inside its first Read while a second Push of the
+// same descriptor runs to completion; then the first resumes.  Returns both results.
+func overlapPush(ctx context.Context, st sTarget, d ocispec.Descriptor, data []byte, serialised bool) (first, second string) {
+	wait := 30 * time.Second
+	if serialised {
+		wait = 100 * time.Millisecond
+	}
+	g := &gateReader{data: data, started: make(chan struct{}), release: make(chan struct{})}
+	res := make(chan error, 1)
+	go func() { res <- st.Push(ctx, d, g) }()
+	select {
+	case <-g.started:
+	case err := <-res: // refused before reading anything
+		return sErr(err), sErr(st.Push(ctx, d, bytes.NewReader(data)))
+	}
+	res2 := make(chan error, 1)
+	go func() { res2 <- st.Push(ctx, d, bytes.NewReader(data)) }()
+	select {
+	case err := <-res2:
+		second = sErr(err)
+		close(g.release)
+	case <-time.After(wait):
+		// the store serialises the two (the file store's per-name lock): let the first finish
+		close(g.release)
+		second = sErr(<-res2)
+	}
+	return sErr(<-res), second
+}
+
+// C06c: operations that overlap in time.
+func runC06c(seed int64, tier string, sc *Script) map[string]any {
+	ctx := context.Background()
+	tmp, err := os.MkdirTemp("", "verif-c06c-")
+	if err != nil {
+		panic(err)
+	}
+	defer os.RemoveAll(tmp)
+	ops := 0
+	// two pushes of the same content that overlap in time: in every sequential order of the
+	// two exactly one is accepted
+	for ci := 0; ci < 12; ci++ {
+		for _, kind := range []string{"mem", "file-unnamed", "file-named", "oci"} {
+			data := []byte(fmt.Sprintf("overlap-%d-%s", ci, kind))
+			d := descOf("application/vnd.verif.blob", data)
+			var st sTarget
+			dir := filepath.Join(tmp, fmt.Sprintf("ov%d-%s", ci, kind))
+			var closer func()
+			switch kind {
+			case "mem":
+				st = memory.New()
+			case "oci":
+				o, err := oci.New(dir)
+				if err != nil {
+					panic(err)
+				}
+				st = o
+			default:
+				f, err := file.New(dir)
+				if err != nil {
+					panic(err)
+				}
+				closer = func() { f.Close() }
+				st = f
+				if kind == "file-named" {
+					d.Annotations = map[string]string{ocispec.AnnotationTitle: "n.bin"}
+				}
+			}
+			sc.Case("overlapping-push " + kind)
+			sc.NonTrivial()
+			a, b := overlapPush(ctx, st, d, data, kind == "file-named")
+			okc := 0
+			for _, r := range []string{a, b} {
+				if r == "ok" {
+					okc++
+				}
+			}
+			sc.Op(fmt.Sprintf("accepted=%d", okc), "s overlap kind=%s first=%s second=%s", kind, a, b)
+			if closer != nil {
+				closer()
+			}
+			os.RemoveAll(dir)
+			ops++
+		}
 	}
 	sc.Extra["evaluations"] = ops
 	return nil
